@@ -1048,8 +1048,10 @@ func (r *transformingReader) Read(data []byte) (n int, err error) {
 		if err := r.rw.op.readRequestMessage(r.rw, r.r, r.msg); err != nil {
 			// If this is the first request message, the error is EOF, and there's a body
 			// preparer, we'll allow it and let the preparer produce a message from zero
-			// request bytes.
-			if !r.consumedFirst && errors.Is(err, io.EOF) && r.rw.op.clientReqNeedsPrep {
+			// request bytes. Likewise if the client's protocol has no envelopes: the
+			// body is the one message of the request, also when it is empty.
+			if !r.consumedFirst && errors.Is(err, io.EOF) &&
+				(r.rw.op.clientReqNeedsPrep || r.rw.op.clientEnveloper == nil) {
 				r.msg.markReady()
 			} else {
 				r.err = err
